@@ -182,8 +182,10 @@ func (r *rdbdriver) GetLocationByMap(ipnet *net.IPNet, mapID []byte, context Con
 		clientIP = ipnet.IP
 	}
 	copy(fullKey[6:], clientIP.To16())
-	reqMaskLen, _ := ipnet.Mask.Size()
-	if isIPv4(ipnet.IP) {
+	reqMaskLen, maskBits := ipnet.Mask.Size()
+	if isIPv4(ipnet.IP) && maskBits == 8*net.IPv4len {
+		// a prefix length that already counts 128 bits (an IPv4-mapped address
+		// sent as an IPv6 one) needs no offset
 		reqMaskLen += 128 - 32
 	}
 	copy(fullKey[6+16:], []byte{uint8(reqMaskLen)})
